@@ -30,6 +30,9 @@ Stmts(mn) ==
   \cup (IF mn \in {"LDA", "LEAX", "STX", "JMP", "CMPY", "NEG"}
         THEN {[S0 EXCEPT !.mn = mn, !.form = "idx", !.reg = r, !.sub = s, !.ind = n, !.expr = E1(N(5, "dec"))] :
                  r \in {"Z", "PC", "W", "A", "DP", "x"}, s \in {"zero", "off", "inc1", "dec2", "acc"}, n \in BOOLEAN} ELSE {})
+  \cup (IF mn \in {"LDA", "LEAX", "STX", "JMP", "CMPY", "NEG", "LDD", "STB"}
+        THEN {[S0 EXCEPT !.mn = mn, !.form = "idx", !.reg = r, !.sub = s, !.ind = n] :
+                 r \in IdxRegs, s \in {"dec1inc1", "dec2inc1", "dec1inc2", "dec2inc2", "inc3", "dec3"}, n \in BOOLEAN} ELSE {})
   \cup (IF mn \in StackOps \/ mn \in {"NOP", "BRA"} THEN {[S0 EXCEPT !.mn = mn, !.form = "regs", !.regs = SetToSeq(rs)] : rs \in RegLists \ {{}}} ELSE {})
   \cup (IF mn \in PairOps \/ mn \in {"NOP", "LBRA"} THEN {[S0 EXCEPT !.mn = mn, !.form = "pair", !.r1 = a, !.r2 = b] : a \in Regs, b \in Regs} ELSE {})
 Ctx == [addr |-> 1, dp |-> 0]
